@@ -27,9 +27,18 @@ func TestC01(t *testing.T) {
 	}
 	// directed: governance campaigns on the EVM parameters in quick succession (half of them rolled
 	// back), so that followers which restart along the way meet state that changed under them
-	for i := 0; i < r.Cases(3, 8); i++ {
+	ng := r.Cases(3, 8)
+	for i := 0; i < ng; i++ {
 		id := fmt.Sprintf("gov/%d", i)
 		if !r.Want(id, nh+i) {
+			continue
+		}
+		c01History(r, id)
+	}
+	// directed: vesting accounts, liquid denoms with token pairs, conversions and bank sends of paired denoms
+	for i := 0; i < r.Cases(2, 6); i++ {
+		id := fmt.Sprintf("paired/%d", i)
+		if !r.Want(id, nh+ng+i) {
 			continue
 		}
 		c01History(r, id)
@@ -138,6 +147,10 @@ func c01History(r *report.R, id string) {
 		g.campEvery, g.campFailEvery, g.campKinds, g.slowBlocks = 2, 2, []int{0, 1, 2, 3, 3, 3, 4, 5, 7}, true
 		nblocks = r.Pick(60, 120)
 	}
+	if strings.HasPrefix(id, "paired/") {
+		g.focus = []int{21, 22, 23, 24, 27, 27, 27}
+		nblocks = r.Pick(50, 100)
+	}
 	for b := 0; b < nblocks; b++ {
 		g.block()
 	}
@@ -171,7 +184,7 @@ func c01History(r *report.R, id string) {
 	}
 	nfollow := r.Pick(3, 6)
 	knobs := followerKnobs(r, id, nfollow)
-	if strings.HasPrefix(id, "gov/") {
+	if strings.HasPrefix(id, "gov/") || strings.HasPrefix(id, "paired/") {
 		// every follower of a directed history restarts several times
 		rr := r.Rand(id + "/restarts")
 		for i := range knobs {
